@@ -152,6 +152,36 @@ def grounds(program: Union[str, Sequence[AST]], facts: str = "", consts: Optiona
     return SolveResult("ok", [], msgs)
 
 
+def grounds_guarded(text: str, consts: Optional[dict[str, int]] = None, timeout: float = 6.0) -> str:
+    """ground in a forked child under a wall-clock limit: ok | error | timeout.
+    Used for programs nobody has grounded before (mutants): gringo cannot be interrupted in-process."""
+    import os  # pylint: disable=import-outside-toplevel
+    import signal  # pylint: disable=import-outside-toplevel
+    import time  # pylint: disable=import-outside-toplevel
+
+    pid = os.fork()
+    if pid == 0:
+        code = 2
+        try:
+            code = 0 if grounds(text, "", consts).status == "ok" else 1
+        except BaseException:  # pylint: disable=broad-except
+            code = 2
+        os._exit(code)
+    deadline = time.time() + timeout
+    delay = 0.001
+    while time.time() < deadline:
+        done, status = os.waitpid(pid, os.WNOHANG)
+        if done:
+            if os.WIFEXITED(status) and os.WEXITSTATUS(status) == 0:
+                return "ok"
+            return "error"
+        time.sleep(delay)
+        delay = min(0.02, delay * 1.5)
+    os.kill(pid, signal.SIGKILL)
+    os.waitpid(pid, 0)
+    return "timeout"
+
+
 def sig_of(sym: clingo.Symbol) -> Sig:
     """name/arity of an atom"""
     return (sym.name, len(sym.arguments))
